@@ -213,6 +213,9 @@ def rules(ctx):
                      "N and the label map are both the model's own enumeration" if okb else
                      "N = %s and map = %s do not come from the model's own enumeration" % (src(nsrc), src(msrc)))
 
+    from .C14 import registration_parity
+    registration_parity(ctx, 'R09.2')      # the caches the model-attribute branch enumerates register variables of non-zero terms only
+
     # ---------------------------------------------------------------- R09.3
     vcalls = [enclosing_stmt(c) for c in calls_in(loop) if is_name(c.func, valuep)]
     cand = None
